@@ -49,6 +49,18 @@ def resolvers():
     return _resolvers
 
 
+_base = {}
+
+
+def base_resolvers():
+    import io
+    import yaml
+    if not _base:
+        _base["BaseLoader"] = yaml.BaseLoader("")
+        _base["BaseDumper"] = yaml.BaseDumper(io.StringIO())
+    return _base
+
+
 def value_equal(a, b, sexagesimal=False):
     if type(a) is not type(b):
         return False
@@ -65,6 +77,14 @@ def check_text(text, full):
     evals = 0
     kind = rs.classify(text)
     tag = rs.tag_of(kind)
+    if full or kind != "str":
+        # the Base classes resolve every scalar to str; asking them first also shows whether what one resolver class
+        # decided for a text leaks into another class
+        for bname, b in base_resolvers().items():
+            evals += 1
+            got = b.resolve(ScalarNode, text, (True, False))
+            if got != rs.tag_of("str"):
+                failures.append(Failure("resolver:%s:not-str" % bname, "text=%r got %s" % (text, got)))
     for name, r in resolvers().items():
         evals += 1
         got = r.resolve(ScalarNode, text, (True, False))
